@@ -49,6 +49,13 @@ ClearedOK(ev, u0, u1) ==
   LET c == ev.cleared IN
   /\ { c[i] : i \in DOMAIN c } = u0 \ u1
   /\ \A i, j \in DOMAIN c : i # j => c[i] # c[j]
+(* a gate instruction of application a operates on the physical qubit its virtual qubit is mapped to, and on no other *)
+TouchedOK(ev) ==
+  ev.a # "step" \/ "touched" \notin DOMAIN ev \/ ev.touched = << >> \/
+  LET a == ev.app  prog == ProgOf(a)  ins == prog[ms[a].pc + 1] IN
+  /\ ms[a].pc < Len(prog) /\ ins.mn = "h"
+  /\ LET v == Val(ms[a].regs[ins.ops[1]]) IN
+     Allocated(ms[a], v) /\ \A i \in DOMAIN ev.touched : ev.touched[i] = ms[a].um[v + 1]
 TInit == Init /\ id \in DOMAIN Traces /\ k = 0 /\ verdict = "running"
 Act(ev) == CASE ev.a = "init"    -> InitApp(ev.app, ev.n)
              [] ev.a = "stop"    -> StopApp(ev.app)
@@ -65,7 +72,9 @@ TNext == /\ verdict = "running" /\ k < Len(Tr)
          /\ IF Tr[k + 1].err # "" THEN UNCHANGED vars /\ verdict' = "raised:" \o Tr[k + 1].a
             ELSE \/ /\ ENABLED Act(Tr[k + 1]) /\ Act(Tr[k + 1])
                     \* the backend is asked to reset exactly the physical qubits this operation gives back, each once
-                    /\ verdict' = IF ClearedOK(Tr[k + 1], used, used') THEN "check" ELSE "resets-other-physical-qubits-than-released"
+                    /\ verdict' = IF ~ClearedOK(Tr[k + 1], used, used') THEN "resets-other-physical-qubits-than-released"
+                                  ELSE IF ~TouchedOK(Tr[k + 1]) THEN "gate-on-a-physical-qubit-that-is-not-the-application's"
+                                  ELSE "check"
                  \/ ~ENABLED Act(Tr[k + 1]) /\ UNCHANGED vars /\ verdict' = "not-enabled:" \o Tr[k + 1].a
 TCheck == /\ verdict = "check" /\ UNCHANGED <<vars, id, k>>
           /\ verdict' = LET d == Diff(Proj, Logged(Tr[k].post)) IN
